@@ -68,7 +68,7 @@ func (w *wset) merge(o *wset) {
 // functions do not write memory reachable from the analysed program's own
 // data structures (they return fresh values).
 func DefaultPure(name string) bool {
-	for _, p := range []string{"strings.", "unicode.", "unicode/utf8.", "math.", "strconv.", "path/filepath.", "path.", "time.", "(time.", "(*time.", "fmt.Sprint", "fmt.Errorf", "fmt.Print", "fmt.Fprint", "errors.", "os.Stat", "os.Getenv", "os.LookupEnv", "os.ReadFile", "os.IsNotExist", "os.IsPermission", "os.MkdirAll", "os.UserHomeDir", "os.UserConfigDir", "os.Executable", "regexp.", "(*regexp.Regexp).", "(*strings.Builder).", "crypto/sha256.", "log.", "runtime.", "github.com/sahilm/fuzzy.Find", "(*container/list.List).Len", "(*container/list.List).Back", "(*container/list.List).Front", "(*container/list.Element).", "(*sync.", "sync/atomic.Load", "(*os.File).", "os.CreateTemp", "os.Rename", "os.Remove", "os.WriteFile", "os.Getwd", "os.ReadDir"} {
+	for _, p := range []string{"strings.", "unicode.", "unicode/utf8.", "math.", "strconv.", "path/filepath.", "path.", "time.", "(time.", "(*time.", "fmt.Sprint", "fmt.Errorf", "fmt.Print", "fmt.Fprint", "errors.", "os.Stat", "os.Getenv", "os.LookupEnv", "os.ReadFile", "os.IsNotExist", "os.IsPermission", "os.MkdirAll", "os.UserHomeDir", "os.UserConfigDir", "os.Executable", "regexp.", "(*regexp.Regexp).", "(*strings.Builder).", "crypto/sha256.", "log.", "runtime.", "github.com/sahilm/fuzzy.Find", "(*container/list.List).Len", "(*container/list.List).Back", "(*container/list.List).Front", "(*container/list.Element).", "(*sync.", "sync/atomic.Load", "(*os.File).", "(io/fs.FileInfo).", "(os.FileInfo).", "os.CreateTemp", "os.Rename", "os.Remove", "os.WriteFile", "os.Getwd", "os.ReadDir"} {
 		if strings.HasPrefix(name, p) {
 			return true
 		}
@@ -213,6 +213,31 @@ func (c *Ctx) instrWrites(in ssa.Instruction) *wset {
 				w.add(elemKey(ssau.Strip(cc.Args[0]).Type()))
 			}
 			// the comparator closure is assumed not to write (checked by C02 rules separately)
+			return w
+		}
+		if ai, ok := argWriters[name]; ok && ai < len(cc.Args) {
+			// library decoders write only through one pointer/slice argument
+			tgt := ssau.Strip(cc.Args[ai])
+			switch t := tgt.(type) {
+			case *ssa.Alloc:
+				if k := c.addrKey(t); k != "" {
+					w.add(k)
+					addStructFields(w, derefType(t.Type()), 0)
+					return w
+				}
+			default:
+				if _, isSlice := tgt.Type().Underlying().(*types.Slice); isSlice {
+					w.add(elemKey(tgt.Type()))
+					return w
+				}
+				if pt, isPtr := tgt.Type().Underlying().(*types.Pointer); isPtr {
+					if _, isStruct := pt.Elem().Underlying().(*types.Struct); isStruct {
+						addStructFields(w, pt.Elem(), 0)
+						return w
+					}
+				}
+			}
+			w.all = true
 			return w
 		}
 		if cal := cc.StaticCallee(); cal != nil {
@@ -837,6 +862,15 @@ func writesOwnAllocation(in ssa.Instruction) bool {
 		}
 	}
 	return false
+}
+
+// argWriters lists library functions that write only through the given
+// argument (a pointer or slice).
+var argWriters = map[string]int{
+	"encoding/binary.Read":       2,
+	"encoding/json.Unmarshal":    1,
+	"gopkg.in/yaml.v3.Unmarshal": 1,
+	"io.ReadFull":                1,
 }
 
 func derefType(t types.Type) types.Type {
